@@ -26,7 +26,32 @@ pub fn split(v: &Value) -> Value {
             .collect();
         attributions.insert(path.clone(), (Vec::new(), l));
     }
-    let va = VirtualAttributions::new(repo, v["commit"].as_str().unwrap().to_string(), attributions, HashMap::new(), 1);
+    // every session of the pending state comes with its prompt record
+    let mut prompts: std::collections::BTreeMap<String, std::collections::BTreeMap<String, git_ai::authorship::authorship_log::PromptRecord>> =
+        std::collections::BTreeMap::new();
+    let mut sessions: Vec<String> = attributions
+        .values()
+        .flat_map(|(_, l)| l.iter().map(|la| la.author_id.clone()))
+        .filter(|a| a != "human")
+        .collect();
+    sessions.sort();
+    sessions.dedup();
+    for sname in sessions {
+        let rec = git_ai::authorship::authorship_log::PromptRecord {
+            agent_id: git_ai::authorship::working_log::AgentId { tool: "t".into(), id: format!("id-{sname}"), model: "m".into() },
+            human_author: None,
+            messages: vec![],
+            total_additions: 0,
+            total_deletions: 0,
+            accepted_lines: 0,
+            overriden_lines: 0,
+            messages_url: None,
+        };
+        let mut m = std::collections::BTreeMap::new();
+        m.insert(String::new(), rec);
+        prompts.insert(sname, m);
+    }
+    let va = VirtualAttributions::new_with_prompts(repo, v["commit"].as_str().unwrap().to_string(), attributions, HashMap::new(), prompts, 1);
     match va.to_authorship_log_and_initial_working_log(&repo2, v["parent"].as_str().unwrap(), v["commit"].as_str().unwrap(), None) {
         Ok((log, initial)) => {
             let mut note = Map::new();
@@ -69,8 +94,84 @@ pub fn split(v: &Value) -> Value {
                 }
                 init.insert(path.clone(), json!(per));
             }
-            json!({"ok": true, "note": note, "initial": init, "note_wellformed": wellformed})
+            let initial_prompts: Vec<String> = initial.prompts.keys().cloned().collect();
+            let note_prompts: Vec<String> = log.metadata.prompts.keys().cloned().collect();
+            json!({"ok": true, "note": note, "initial": init, "note_wellformed": wellformed, "initial_prompts": initial_prompts, "note_prompts": note_prompts})
         }
         Err(e) => json!({"ok": false, "error": e.to_string()}),
     }
+}
+
+/// post-commit scope: {initial: [files], commit_files: [files], checkpoints: [[kind, file, has_attr]..]}
+/// a real repository: INITIAL of the parent names `initial` (untracked files with two lines each), the commit
+/// touches `commit_files`; after the real post_commit the INITIAL of the new commit must still name every
+/// pending file the commit did not take.
+pub fn post_commit_scope(v: &Value) -> Value {
+    use git_ai::authorship::working_log::{Checkpoint, CheckpointKind, WorkingLogEntry};
+    let dir = std::env::temp_dir().join(format!("vreplay-c04p-{}", std::process::id()));
+    let _ = std::fs::remove_dir_all(&dir);
+    std::fs::create_dir_all(&dir).unwrap();
+    let git = |args: &[&str]| {
+        let o = std::process::Command::new("git")
+            .args(args)
+            .current_dir(&dir)
+            .env("GIT_AUTHOR_NAME", "v")
+            .env("GIT_AUTHOR_EMAIL", "v@v")
+            .env("GIT_COMMITTER_NAME", "v")
+            .env("GIT_COMMITTER_EMAIL", "v@v")
+            .output()
+            .unwrap();
+        assert!(o.status.success(), "git {:?}: {}", args, String::from_utf8_lossy(&o.stderr));
+        String::from_utf8_lossy(&o.stdout).trim().to_string()
+    };
+    git(&["init", "-q", "."]);
+    git(&["config", "user.name", "v"]);
+    git(&["config", "user.email", "v@v"]);
+    std::fs::write(dir.join("base.txt"), "base\n").unwrap();
+    git(&["add", "base.txt"]);
+    git(&["commit", "-q", "-m", "base"]);
+    let parent = git(&["rev-parse", "HEAD"]);
+    let names = |k: &str| -> Vec<String> { v[k].as_array().unwrap().iter().map(|x| x.as_str().unwrap().to_string()).collect() };
+    let initial = names("initial");
+    let commit_files = names("commit_files");
+    for f in &initial {
+        std::fs::write(dir.join(f), "pending one\npending two\n").unwrap();
+    }
+    for f in &commit_files {
+        std::fs::write(dir.join(f), "committed one\ncommitted two\n").unwrap();
+    }
+    let repo = git_ai::git::find_repository_in_path(dir.to_str().unwrap()).expect("repo");
+    let wl = repo.storage.working_log_for_base_commit(&parent);
+    if !initial.is_empty() {
+        let mut files = HashMap::new();
+        for f in &initial {
+            files.insert(f.clone(), vec![LineAttribution::new(1, 2, "s1".into(), None)]);
+        }
+        wl.write_initial_attributions(files, HashMap::new()).unwrap();
+    }
+    let mut cks = Vec::new();
+    for (i, c) in v["checkpoints"].as_array().unwrap().iter().enumerate() {
+        let kind = match c[0].as_str().unwrap() {
+            "Human" => CheckpointKind::Human,
+            "AiAgent" => CheckpointKind::AiAgent,
+            _ => CheckpointKind::AiTab,
+        };
+        let who = if c[0] == "Human" { "human" } else { "s1" };
+        let la = if c[2].as_bool().unwrap_or(false) { vec![LineAttribution::new(1, 1, who.into(), None)] } else { vec![] };
+        let e = WorkingLogEntry::new(c[1].as_str().unwrap().to_string(), format!("b{i}"), vec![], la);
+        cks.push(Checkpoint::new(kind, "d".into(), "x".into(), vec![e]));
+    }
+    wl.write_all_checkpoints(&cks).unwrap();
+    for f in &commit_files {
+        git(&["add", f]);
+    }
+    git(&["commit", "-q", "--allow-empty", "-m", "next"]);
+    let commit = git(&["rev-parse", "HEAD"]);
+    let r = git_ai::authorship::post_commit::post_commit(&repo, Some(parent.clone()), commit.clone(), "v".to_string(), true);
+    let wl2 = repo.storage.working_log_for_base_commit(&commit);
+    let mut still: Vec<String> = wl2.read_initial_attributions().files.keys().cloned().collect();
+    still.sort();
+    let lost: Vec<String> = initial.iter().filter(|f| !commit_files.contains(f) && !still.contains(f)).cloned().collect();
+    let _ = std::fs::remove_dir_all(&dir);
+    json!({"ok": r.is_ok(), "error": r.err().map(|e| e.to_string()), "initial_after": still, "lost": lost})
 }
